@@ -10,7 +10,7 @@ namespace Iodine.C02L
 open Iodine Iodine.Gen Iodine.World
 
 /-- `offerC` from a quiescent state, whatever the sequence numbers are -/
-theorem up_offer_any {P : Par} (hP : P.Ok) {d : Nat} {w : W} (hq : QuietImmD P d 0 w) (frame : List Nat) (hne : frame ≠ [])
+theorem up_offer_any {P : Par} (hP : P.Ok) {d sl sp : Nat} {w : W} (hq : QuietImmDS P d 0 sl sp w) (frame : List Nat) (hne : frame ≠ [])
     (hl : frame.length < 65536) (hb : Codec.Bytes frame) :
     ∃ w1, step w (.offerC frame) = w1 ∧ w1.cs.ph = .tunnel ∧ CReady P (newPacket w.cs.c frame) (0x5a :: frame) 0 0 ∧
       w1.cs.c = { sentState (newPacket w.cs.c frame) with sendPingSoon := 0 } ∧
@@ -54,19 +54,19 @@ theorem newPacket_seqno {P : Par} {c : Client.Cli} (hc : CStat P c) (frame : Lis
   exact sChar_small _ (by omega)
 
 /-- **`d ≤ 3`: delivered, and in sync again.** -/
-theorem up_packet_imm_desync_ok {P : Par} (hP : P.Ok) {d : Nat} {w : W} (hq : QuietImmD P d 0 w) (hd : d ≤ 3) (frame : List Nat)
+theorem up_packet_imm_desync_ok {P : Par} (hP : P.Ok) {d sl sp : Nat} {w : W} (hq : QuietImmDS P d 0 sl sp w) (hd : d ≤ 3) (frame : List Nat)
     (h24 : 24 ≤ frame.length) (hl : frame.length < 65536) (hb : Codec.Bytes frame)
     (hdst : Server.ipDst frame ≠ (Server.getUser w.srv P.u).tunIp)
-    (hg16 : upFrags P (frame.length + 1) (0x5a :: frame) ≤ 16) :
+    (hg16 : upFrags P (frame.length + 1) (0x5a :: frame) ≤ 16) (hsl : 1 ≤ sl ∧ sl ≤ 21 := by omega) :
     ∃ w', promptSteps P.u (2 * upFrags P (frame.length + 1) (0x5a :: frame) + 1) (step w (.offerC frame)) = some w' ∧
-      QuietImm P w' ∧
+      QuietImmS P sl sp w' ∧
       w'.tunS = w.tunS ++ [tunImage frame] ∧ w'.tunC = w.tunC ∧
       (Server.getUser w'.srv P.u).tunIp = (Server.getUser w.srv P.u).tunIp ∧
       (Server.getUser w'.srv P.u).fragsize = (Server.getUser w.srv P.u).fragsize := by
   have hne : frame ≠ [] := by intro hc; rw [hc] at h24; simp at h24
   obtain ⟨w1, hw1, hph, hready, hcli, hup, hdown, hsrv, ht1, ht2⟩ := up_offer_any hP hq frame hne hl hb
   have hsq := newPacket_seqno hq.cst frame
-  have hfl : UpFlight P (0x5a :: frame) w1 (newPacket w.cs.c frame) 0 0 := by
+  have hfl : UpFlightS P sl sp (0x5a :: frame) w1 (newPacket w.cs.c frame) 0 0 := by
     refine ⟨hph, hready, hcli, hup, hdown, by rw [hsrv]; exact hq.srv, by rw [hsrv]; exact hq.idle, by rw [hsrv]; exact hq.oq, ?_,
       ?_, by rw [hsrv]; exact hq.aged, by rw [hsrv]; exact hq.paged⟩
     · left
@@ -89,11 +89,12 @@ of fragment 0 -/
 def DropsUp (x : Server.Session) (d : Nat) : Prop := (4 ≤ d ∧ d ≤ 6) ∨ (d = 7 ∧ 1 ≤ x.inpacket.fragment)
 
 /-- **`d` in the window: NOT delivered; three resends, give-up after 4 s; one further out of step.**  14 scheduler steps. -/
-theorem up_packet_imm_desync_drop {P : Par} (hP : P.Ok) {d : Nat} {w : W} (hq : QuietImmD P d 0 w)
+theorem up_packet_imm_desync_drop {P : Par} (hP : P.Ok) {d sl sp : Nat} {w : W} (hq : QuietImmDS P d 0 sl sp w)
     (hd : DropsUp (Server.getUser w.srv P.u) d) (frame : List Nat)
-    (hne : frame ≠ []) (hl : frame.length < 65536) (hb : Codec.Bytes frame) :
+    (hne : frame ≠ []) (hl : frame.length < 65536) (hb : Codec.Bytes frame)
+    (hsl : 1 ≤ sl ∧ sl ≤ 21 := by omega) (hsp : 1 ≤ sp ∧ sp ≤ 999 := by omega) :
     ∃ w', promptSteps P.u 14 (step w (.offerC frame)) = some w' ∧
-      QuietImmD P ((d + 1) % 8) 0 w' ∧ w'.tunS = w.tunS ∧ w'.tunC = w.tunC ∧
+      QuietImmDS P ((d + 1) % 8) 0 sl sp w' ∧ w'.tunS = w.tunS ∧ w'.tunC = w.tunC ∧
       (Server.getUser w'.srv P.u).inpacket = (Server.getUser w.srv P.u).inpacket ∧
       (Server.getUser w'.srv P.u).tunIp = (Server.getUser w.srv P.u).tunIp ∧
       (Server.getUser w'.srv P.u).fragsize = (Server.getUser w.srv P.u).fragsize ∧
@@ -106,7 +107,7 @@ theorem up_packet_imm_desync_drop {P : Par} (hP : P.Ok) {d : Nat} {w : W} (hq : 
   have hsy := hq.syncu
   have hsqn : ((newPacket w.cs.c frame).outpkt.seqno.toNat : Int) = (newPacket w.cs.c frame).outpkt.seqno := by
     rw [hsq]; omega
-  have hst : UpStuck P (0x5a :: frame) w1 (newPacket w.cs.c frame) := by
+  have hst : UpStuckS P sl sp (0x5a :: frame) w1 (newPacket w.cs.c frame) := by
     refine ⟨hph, hready, hcli, hup, hdown, by rw [hsrv]; exact hq.srv, by rw [hsrv]; exact hq.idle, by rw [hsrv]; exact hq.oq, ?_, ?_,
       ?_, by rw [hsrv]; exact hq.aged, by rw [hsrv]; exact hq.paged⟩
     · rw [hsrv]
